@@ -100,7 +100,24 @@ func Term(err error) string {
 // Ref is the meaning of a body under the reference library used directly: constructor
 // result ("ok" or an error class), whole output, final error class.
 func Ref(alg string, wire []byte, fin error) (open string, out []byte, term string) {
-	src := &Src{Data: append([]byte(nil), wire...), Fin: fin}
+	return RefSched(alg, wire, fin, 0, nil)
+}
+
+// RefSched is Ref under a given schedule: the library reads the body in chunks of at most
+// `chunk` bytes and is itself read with the buffer sizes `sizes` in turn (nil = 64 KiB). On
+// intact streams the schedule does not matter; on corrupted ones it can (andybalholm/brotli
+// accepts a bit-flipped 11-byte stream decoded in one go and reports an unexpected EOF when
+// the same bytes arrive in small pieces), so the unit lanes compare a lazy reader with the
+// library driven by exactly the same schedule.
+func RefSched(alg string, wire []byte, fin error, chunk int, sizes []int) (open string, out []byte, term string) {
+	defer func() {
+		// andybalholm/brotli v1.1.1 can PANIC (index out of range in decoderDecompressStream) on a
+		// corrupted stream: reported as constructor result "panic"
+		if r := recover(); r != nil {
+			open, out, term = "panic", nil, "eof"
+		}
+	}()
+	src := &Src{Data: append([]byte(nil), wire...), Fin: fin, Chunk: chunk}
 	var r io.Reader
 	switch alg {
 	case "gzip":
@@ -123,8 +140,12 @@ func Ref(alg string, wire []byte, fin error) (open string, out []byte, term stri
 	default:
 		panic("verifc14: unknown alg " + alg)
 	}
-	buf := make([]byte, 64<<10)
-	for i := 0; i < 1<<20; i++ {
+	for i := 0; i < 1<<22; i++ {
+		size := 64 << 10
+		if len(sizes) > 0 {
+			size = sizes[i%len(sizes)]
+		}
+		buf := make([]byte, size)
 		n, err := r.Read(buf)
 		out = append(out, buf[:n]...)
 		if err != nil {
@@ -157,6 +178,26 @@ func RefDigestFin(alg string, wire []byte, fin error) string {
 		return Digest(nil, open)
 	}
 	return Digest(out, term)
+}
+
+// CorruptDigest describes the outcome of reading a CORRUPTED (bit-flipped / truncated) encoded
+// body: the property admits a read error or exactly the original payload, and which of the two
+// a decoder produces may depend on how the bytes arrive - both are "admissible". Anything else
+// (a different or shortened body with a clean end) keeps its exact digest.
+func CorruptDigest(data []byte, term string, payload []byte) string {
+	if strings.HasPrefix(term, "err") || (term == "eof" && bytes.Equal(data, payload)) {
+		return "corrupt-admissible"
+	}
+	return Digest(data, term)
+}
+
+// RefCorruptDigest is CorruptDigest of Ref (constructor error = read error).
+func RefCorruptDigest(alg string, wire, payload []byte, fin error) string {
+	open, out, term := Ref(alg, wire, fin)
+	if open != "ok" {
+		return CorruptDigest(nil, open, payload)
+	}
+	return CorruptDigest(out, term, payload)
 }
 
 // Payload draws a payload of the class: 0 empty, 1 tiny, 2 compressible text, 3 random,
